@@ -191,8 +191,14 @@ def pop_case(draw):
         if dm == 0:
             c["d"] = draw(st.sampled_from([0.03, 0.05, 0.023, 0.017, 0.017]))
         elif dm == 1:
-            c["d"] = draw(st.sampled_from([0.1, 0.2]))
-            c["sp"] = round(c["d"] / float(np.sqrt(draw(st.sampled_from([1, 2, 3])))), 6)
+            if draw(st.booleans()):
+                c["d"] = draw(st.sampled_from([0.1, 0.2]))
+                c["sp"] = round(c["d"] / float(np.sqrt(draw(st.sampled_from([1, 2, 3])))), 6)
+            else:
+                # delays that differ but round to the same number of steps, spreads from a short list (so that two
+                # connections of one source variable may share the spread): every connection has a kernel of its own
+                c["d"] = draw(st.sampled_from([0.104, 0.096, 0.1, 0.204, 0.196]))
+                c["sp"] = draw(st.sampled_from([0.05, 0.07]))
         if kind == "matrix" and draw(st.integers(0, 3)) == 0 and (sp_[0] == tp_[0] or draw(st.integers(0, 5)) == 0):
             tstates = [v[0] for v in ops[to]["vars"] if v[1] == "state"]
             pv = draw(st.sampled_from(tstates))
@@ -205,6 +211,17 @@ def pop_case(draw):
                 c["coupling"]["dynamic"] = {"g_c": draw(st.sampled_from([1.0, 1.5, 0.7])),
                                             "tau_c": draw(st.sampled_from([0.5, 1.0, 2.0]))}
         conns.append(c)
+        if c.get("sp") in (0.05, 0.07) and not c.get("coupling") and draw(st.booleans()):
+            # a second connection that leaves the same source variable with the same spread and a delay that rounds to the
+            # same number of steps
+            tp2 = draw(st.sampled_from(pops))
+            to2 = ntypes[tp2[1]]["ops"][0]
+            tv2 = draw(st.sampled_from([v[0] for v in ops[to2]["vars"] if v[1] == "input"]))
+            d2 = {0.104: 0.096, 0.096: 0.104, 0.1: 0.104, 0.204: 0.196, 0.196: 0.204}[c["d"]]
+            W2 = [[draw(wv) for _ in range(sp_[2])] for _ in range(tp2[2])]
+            if not any(any(r) for r in W2):
+                W2[0][0] = 0.75
+            conns.append({"s": c["s"], "t": f"{tp2[0]}/{to2}/{tv2}", "W": W2, "d": d2, "sp": c["sp"], "coupling": None})
     if not conns:
         conns.append(c)
     return {"pspec": {"ops": ops, "ntypes": ntypes, "pops": pops, "conns": conns},
